@@ -160,6 +160,8 @@ ThresholdRegime(D) == D <= 0
 (*   "relative_index"    relaxation index counted from the start of the run                     *)
 (*   "relative_subset"   subset schedule counted from the start of the run                      *)
 (*   "no_prior_term"     the penalty term never reaches the denominator                          *)
+(*   "refill_on_resume"  voxels without sensitivity are set to 0 at the first sub-iteration of   *)
+(*                       EVERY run (also a resumed one) - finding C08-resume-nonidentifiable     *)
 NoDen == -1
 FreshObject == [den |-> NoDen, start |-> 0, last |-> 0, k |-> 0, ready |-> FALSE]
 ObjSetUp(o, start, last, variant) ==
@@ -173,6 +175,12 @@ PenaltyTermsUsed(c, o, variant) ==
 ObjStep(c, o, variant) ==
   [o EXCEPT !.den = IF c.prior /\ ~c.dep /\ o.k = o.start /\ variant # "no_prior_term" THEN o.den + 1 ELSE o.den,
             !.k = o.k + 1, !.ready = o.k < o.last]
+(* Named deviation from the bare law: "set all voxels to 0 that cannot be estimated" (voxels of zero sensitivity) before the *)
+(* first update of a FRESH reconstruction.  It must not be repeated when a reconstruction is resumed from a saved iterate:  *)
+(* with a prior the penalty has moved those voxels away from 0, and zeroing them again makes the resumed run differ from   *)
+(* the uninterrupted one ("resuming from a saved iterate reproduces the uninterrupted run").                                *)
+FillApplies(k, start, variant) == IF variant = "refill_on_resume" THEN k = start ELSE (k = 1 /\ start = 1)
+FillNonIdentifiable(img, zeroSens(_)) == [v \in 1..Len(img) |-> IF zeroSens(v) THEN 0 ELSE img[v]]
 IndexUsed(c, o, variant) == IF variant = "relative_index" THEN RelaxationIndex(o.k - o.start + 1, c.N) ELSE RelaxationIndex(o.k, c.N)
 SubsetUsed(c, o, variant) == IF variant = "relative_subset" THEN SubsetOf(c, o.k - o.start + 1) ELSE SubsetOf(c, o.k)
 (* the denominator equals its definition exactly when the penalty term is in it once (with a prior) *)
